@@ -7,6 +7,16 @@ import sys
 
 HERE = os.path.dirname(os.path.dirname(os.path.abspath(__file__)))
 sys.path.insert(0, HERE)
+def technique(m):
+    base = "machine-checked proof in Coq 8.16: theorems about a hand-written executable Gallina model"
+    tie = "; model tied to the code on every run by a differential correspondence check (model evaluated by vm_compute on the inputs the implementation ran, results compared) and a direct property oracle that searches for the failing input"
+    tr = getattr(m, "TRANSLATED", None)
+    if tr:
+        n = sum(len(e.get("theorems", [])) for e in tr) if isinstance(tr, list) and tr and isinstance(tr[0], dict) else len(tr)
+        tie += ", and by a source-to-Gallina translator (tools/py2coq*.py) that regenerates the definitions of the core functions from /repo on every run and re-checks the committed theorems that they equal the model (%d equivalence obligations)" % n
+    return base + tie
+
+
 props = [json.loads(l) for l in open(os.path.join(HERE, "properties.jsonl"))]
 checks, na = [], []
 # only properties the lead has run end to end on the unchanged tree are registered
@@ -30,7 +40,7 @@ for p in props:
         "engine": "coq-proof+correspondence",
         "level_claimed": {"category": "proof", "text": m.LEVEL_TEXT, "design_ref": getattr(m, "DESIGN_REF", "DESIGN.md section 6." + pid)},
         "level_note": m.LEVEL_NOTE,
-        "technique": getattr(m, "TECHNIQUE", "Coq 8.16 theorems about a hand-written Gallina model; model tied to the code by a differential correspondence check (vm_compute vs implementation)"),
+        "technique": getattr(m, "TECHNIQUE", technique(m)),
     })
 man = {
     "version": 1,
@@ -39,10 +49,10 @@ man = {
               "baseline_off_cmd": "cd /repo && /venv/bin/python -m pytest -ra -q -p no:cacheprovider --timeout=900 --continue-on-collection-errors",
               "source_commits": [], "add_only": True},
     "engines": [{"name": "coq-proof+correspondence", "path": "/verif/coq", "serves_properties": [c["property_id"] for c in checks],
-                 "kind_free_text": "Coq 8.16.1 development (theories/Model, Proofs, Props, Run) + Python harness (harness/*.py) that evaluates the model with coqc/vm_compute on the inputs the implementation ran"}],
+                 "kind_free_text": "Coq 8.16.1 development (theories/Model, Proofs, Props, Run, GenProofs) + Python harness (harness/*.py) that evaluates the model with coqc/vm_compute on the inputs the implementation ran + source-to-Gallina translator (tools/py2coq*.py) whose output is proved equal to the model on every run"}],
     "checks": checks,
     "not_applicable": na,
-    "notes": "See DESIGN.md. Each check: (1) full .vo build + Print Assumptions whitelist + forbidden-vernacular scan, (2) correspondence model vs /repo working tree, (3) direct property oracle on the implementation for failing inputs; KNOWN_FINDINGS.json lists open/fixed findings.",
+    "notes": "See DESIGN.md (sections 11 and 12 for what was built). Each check: (1) .vo build of its targets + Print Assumptions whitelist + forbidden-vernacular scan, (2) translated obligations: the core functions are re-translated from /repo and proved equal to the model, (3) correspondence model vs /repo working tree, (4) direct property oracle on the implementation for failing inputs; KNOWN_FINDINGS.json lists open/fixed findings (open: F10 C15 Perm overflow, F13 C14 neighbour re-drawn after a transient failure).",
 }
 json.dump(man, open(os.path.join(HERE, "MANIFEST.json"), "w"), indent=1)
 print("checks:", [c["property_id"] for c in checks], "not_applicable:", [n["property_id"] for n in na])
